@@ -730,6 +730,17 @@ func ruleC10(c *Ctx, r *Report) {
 		r.Check(len(ends) == 0, "C10-R4", cl.Name()+":encrypt-mode-implies-key", c.InstrPos(se), "every path from SetShouldEncrypt to a processing call installs a generated or validated key (err==nil) or exits non-zero", fmt.Sprintf("processing reachable in encrypt mode without a validated key being installed: %v", where))
 	}
 	keyFunctionsErrorDiscipline(c, r, "C10-R4")
+	// fail-closed in the command too: a key that could not be generated, stored or read ends the
+	// run (a warning instead leaves ciphertexts under a key that exists nowhere: later runs with
+	// the same key file encrypt equal values differently, nothing can be decrypted)
+	{
+		keyFns := map[string]bool{c.pkgFn("GenerateKey"): true, c.pkgFn("WriteKeyToFile"): true, c.pkgFn("ReadKeyFromFile"): true}
+		for _, call := range callsIn(cl, func(k string, _ *ssa.Call) bool { return keyFns[k] }) {
+			construct := fmt.Sprintf("%s:key-error(%s)", cl.Name(), shortKey(calleeKey(&call.Call)))
+			okh, detail := checkCallErrHandled(call, false, nil)
+			r.Check(okh, "C10-R4", construct, c.InstrPos(call), detail, "a key error does not stop the run: "+detail)
+		}
+	}
 	if rk := c.Fn("ReadKeyFromFile"); rk != nil {
 		keyReaderShapeRule(c, r, rk, "C10-R4")
 	}
